@@ -69,6 +69,17 @@ CHECKS["C13"] = {
             "TimeoutSet semantics assumed (glue.rs, read off inner-mem-cache 0.1.7).",
 }
 
+CHECKS["C17"] = {
+    "text": "Proof (Verus, unbounded) of the console permission layer on the real src/user/permission.rs: PathResource::match_url is exact, case-sensitive matching "
+            "('' method/path = all); Module/GroupResource::match_url == exists entry matching; the constructors compute exactly the union of the listed Path entries; "
+            "UserRole::new maps '0','1','2' and nothing else; match_url_by_roles grants iff some role value's table grants (unknown roles and unlisted routes: nobody). "
+            "Plus table lemmas L1-L3 proved over the role tables and the registered console routes re-extracted from the source on every run "
+            "(visitor entries are GET except the login/self-service allow-list; developer has no user-management/transfer entry; visitor <= developer <= manager on every registered route).",
+    "note": "NOT decided: CheckLoginMiddleware::call (regex, actix request, cache actor, async closure) — that every console request passes through match_url_by_roles with a valid "
+            "session is assumed; 'GET handlers do not mutate' is assumed for L1. Table extraction is textual (T6), classification lists come from the property statement.",
+    "technique": "contract-based deductive verification (Verus) of extracted functions + Verus lemmas over mechanically extracted table data; failing table lemma replayed natively on UserRole::match_url_by_roles",
+}
+
 NOT_APPLICABLE = {
     "C01": "equation between the states of seven actors across stop/restart; effects travel through Addr::send futures — no function-shaped contract can state it (DESIGN §6)",
     "C04": "crash points between file writes of several actors need a crash-Hoare logic over an external resource; neither Verus nor Kani models intermediate disk states (DESIGN §6)",
@@ -83,5 +94,4 @@ NOT_APPLICABLE = {
     "C10": "not yet built in this revision (planned: U-configlistener/U-subscriber)",
     "C14": "not yet built in this revision (planned: U-processrange)",
     "C16": "not yet built in this revision (planned: U-grpcauth)",
-    "C17": "not yet built in this revision (planned: U-permission)",
 }
